@@ -2,6 +2,14 @@
 
 Case shape:
   {"vals": [v0, v1] | [v0, v1, v2], "fam": <how the values are related (histogram only)>}
+  | {"vals": [c, c, c, p1, (p2)], "fam": "mutated+...", "mut": {"pre": v, "ops": [write, ...]}}
+    a value with a history: `pre` is built, the laws are evaluated on it against the partners p*, the
+    writes are applied (op: {"path": steps to a symbolic node, "kind", "a": arguments, "quiet": under
+    pg.notify_on_change(False), "skip": skip_notification of rebind, "warm": re-evaluate the laws
+    after the write, "rel": deep key path of a rebind on an ancestor}); the three leading values are
+    realised as (the written value, a fresh build of its contents, its deep clone); `c` is the
+    script's prediction of the contents, the contents read back from the written value are what the
+    model and the oracle are evaluated on (see "Values with a history").
 Value descriptions (JSON):
   ["m"] missing marker | ["n"] None | ["b", 0|1] | ["i", int] | ["f", m, e] (the float m / 2**e)
   | ["s", text] | ["l", sym, [v...]] | ["t", [v...]] | ["d", sym, [[k, v]...]] (k an atom)
@@ -289,6 +297,221 @@ def has_dict(d):
   return any(x[0] in ('d', 'o') and len(x[2]) > 1 for x in walk(d))
 
 
+
+# ------------------------------------------------------------------------------------------
+# Values with a history: write scripts, on descriptions (prediction) and on real values
+#
+# Correspondence rule: eq / ne / lt / gt / hash (and `==`, `!=`, `hash()`) are functions of the
+# CURRENT CONTENTS of their operands. The model is therefore evaluated on the contents of the
+# value *after* the writes (read back through the public read API: `sym_items` / `sym_values` /
+# iteration), whatever was computed - and possibly memoised - on the value before or between the
+# writes, and whichever write path (notifying or not) produced the contents.
+# ------------------------------------------------------------------------------------------
+
+def is_sym_node(d):
+  return (d[0] in ('l', 'd') and d[1] == 1) or d[0] == 'o'
+
+
+def children(d):
+  """(index path into the description, step in the real value, child) per direct child."""
+  t = d[0]
+  if t == 'l':
+    return [([2, i], ['i', i], x) for i, x in enumerate(d[2])]
+  if t == 't':
+    return [([1, i], ['i', i], x) for i, x in enumerate(d[1])]
+  if t == 'd':
+    return [([2, i, 1], ['k', k], v) for i, (k, v) in enumerate(d[2])]
+  if t == 'o':
+    return [([2, i, 1], ['a', k[1]], v) for i, (k, v) in enumerate(d[2])]
+  return []
+
+
+def sym_targets(d):
+  """The symbolic nodes (pg.List / pg.Dict / pg.Object) of d. `anc`: lengths of the prefixes of
+  `vpath` that are symbolic ancestors linked to the node through symbolic nodes only (a tuple breaks
+  the chain); `under_obj`: the node or one of its ancestors is an object."""
+  out = []
+
+  def rec(x, dpath, vpath, in_tuple, chain, under_obj):
+    under_obj = under_obj or x[0] == 'o'
+    if is_sym_node(x):
+      out.append({'dpath': dpath, 'vpath': vpath, 'node': x, 'in_tuple': in_tuple, 'anc': list(chain),
+                  'under_obj': under_obj})
+      chain = chain + [len(vpath)]
+    else:
+      chain = []
+    for dp, vs, c in children(x):
+      rec(c, dpath + dp, vpath + [vs], in_tuple or x[0] == 't', chain, under_obj)
+  rec(d, [], [], False, [], False)
+  return out
+
+
+def desc_replace(d, dpath, fn):
+  if not dpath:
+    return fn(d)
+  d = list(d)
+  d[dpath[0]] = desc_replace(d[dpath[0]], dpath[1:], fn)
+  return d
+
+
+def dpath_of(d, vpath):
+  dp = []
+  for step in vpath:
+    for cdp, vs, c in children(d):
+      if vs == step or (vs[0] == 'k' and step[0] == 'k' and atom_eq(vs[1], step[1])):
+        dp, d = dp + cdp, c
+        break
+    else:
+      raise KeyError(step)
+  return dp
+
+
+def _setkv(kvs, k, v):
+  for kv in kvs:
+    if atom_eq(kv[0], k):
+      kv[1] = v
+      return
+  kvs.append([k, v])
+
+
+def apply_node(node, kind, a):
+  """The contents of a symbolic node after one write (prediction on descriptions)."""
+  node = json.loads(json.dumps(node))
+  if node[0] in ('d', 'o'):
+    if kind in ('set', 'setattr'):
+      _setkv(node[2], a['k'], a['v'])
+    elif kind in ('update', 'rebind'):
+      for k, v in a['kvs']:
+        _setkv(node[2], k, v)
+    elif kind in ('del', 'pop'):
+      node[2] = [kv for kv in node[2] if not atom_eq(kv[0], a['k'])]
+    elif kind == 'clear':
+      node[2] = []
+    else:
+      raise ValueError(kind)
+    return node
+  xs = node[2]
+  if kind == 'set':
+    xs[a['k'][1]] = a['v']
+  elif kind == 'rebind':
+    for k, v in a['kvs']:
+      xs[k[1]] = v
+  elif kind == 'append':
+    xs.append(a['v'])
+  elif kind == 'insert':
+    xs.insert(a['k'][1], a['v'])
+  elif kind == 'extend':
+    xs.extend(a['vs'])
+  elif kind == 'del':
+    del xs[a['k'][1]]
+  elif kind == 'pop':
+    xs.pop()
+  elif kind == 'sort':
+    xs.sort(key=lambda x: build(x, None))
+  elif kind == 'reverse':
+    xs.reverse()
+  elif kind == 'clear':
+    del xs[:]
+  else:
+    raise ValueError(kind)
+  return node
+
+
+def apply_desc(d, op):
+  """The description after one write of a script (the prediction; the contents that count are
+  read back from the real value)."""
+  kind = 'rebind' if op['kind'] == 'deep_rebind' else op['kind']
+  dp = dpath_of(d, op['path'] + op.get('rel', []))
+  return desc_replace(d, dp, lambda node: apply_node(node, kind, op['a']))
+
+
+def _step_key(step):
+  return build(step[1], None) if step[0] == 'k' else step[1]
+
+
+def navigate(x, vpath):
+  for s in vpath:
+    x = x.sym_getattr(s[1]) if s[0] == 'a' else x[_step_key(s)]
+  return x
+
+
+def apply_op(e, root, op):
+  """One write on the real value, through the write path the op names."""
+  import contextlib
+  pg = e['pg']
+  t = navigate(root, op['path'])
+  a, kind = op['a'], op['kind']
+  B = lambda d: build(d, e)
+  K = lambda k: build(k, None)
+  with contextlib.ExitStack() as st:
+    if op.get('quiet'):
+      st.enter_context(pg.notify_on_change(False))
+    if kind == 'set':
+      t[K(a['k'])] = B(a['v'])
+    elif kind == 'setattr':
+      if isinstance(t, pg.Object):
+        st.enter_context(pg.allow_writable_accessors(True))
+      setattr(t, a['k'][1], B(a['v']))
+    elif kind == 'del':
+      del t[K(a['k'])]
+    elif kind == 'pop':
+      t.pop() if isinstance(t, list) else t.pop(K(a['k']))
+    elif kind == 'update':
+      t.update({K(k): B(v) for k, v in a['kvs']})
+    elif kind in ('rebind', 'deep_rebind'):
+      rel = [_step_key(s) for s in op.get('rel', [])]
+      upd = {pg.KeyPath(rel + [K(k)]): B(v) for k, v in a['kvs']}
+      kw = {} if op.get('skip') is None else {'skip_notification': bool(op['skip'])}
+      t.rebind(upd, **kw)
+    elif kind == 'append':
+      t.append(B(a['v']))
+    elif kind == 'insert':
+      t.insert(a['k'][1], B(a['v']))
+    elif kind == 'extend':
+      t.extend([B(v) for v in a['vs']])
+    elif kind == 'sort':
+      t.sort()
+    elif kind == 'reverse':
+      t.reverse()
+    elif kind == 'clear':
+      t.clear()
+    else:
+      raise ValueError(kind)
+
+
+def describe_value(v, e):
+  """The description of the current contents of a real value (inverse of `build`), read through
+  the public read API only."""
+  pg = e['pg']
+  if isinstance(v, type(pg.MISSING_VALUE)):
+    return ['m']
+  if v is None:
+    return ['n']
+  if isinstance(v, bool):
+    return ['b', int(v)]
+  if isinstance(v, int):
+    return ['i', v]
+  if isinstance(v, float):
+    num, den = v.as_integer_ratio()
+    return canon_float(num, den.bit_length() - 1)
+  if isinstance(v, str):
+    return ['s', v]
+  D = lambda x: describe_value(x, e)
+  if isinstance(v, tuple):
+    return ['t', [D(x) for x in v]]
+  if isinstance(v, pg.List):
+    return ['l', 1, [D(x) for x in v.sym_values()]]
+  if isinstance(v, list):
+    return ['l', 0, [D(x) for x in v]]
+  if isinstance(v, pg.Dict):
+    return ['d', 1, [[D(k), D(x)] for k, x in v.sym_items()]]
+  if isinstance(v, dict):
+    return ['d', 0, [[D(k), D(x)] for k, x in v.items()]]
+  if isinstance(v, pg.Object):
+    return ['o', e['classes'].index(type(v)), [[['s', k], D(x)] for k, x in v.sym_items()]]
+  raise ValueError(type(v))
+
+
 # ------------------------------------------------------------------------------------------
 # Generator: related families
 # ------------------------------------------------------------------------------------------
@@ -528,6 +751,120 @@ class Gen:
     return {'vals': vals, 'fam': '+'.join(fam) + ('+malformed' if malformed else '')}
 
 
+
+  # -- values with a history ----------------------------------------------------------------
+  def wval(self, in_tuple):
+    """A value to write into a symbolic node."""
+    r = self.r
+    v = self.atom(False) if r.chance(0.6) else self.val(r.randint(1, 2))
+    return normalize(v, True, in_tuple)
+
+  def gen_op(self, cur):
+    """One write on a random symbolic node of `cur` (None if there is none)."""
+    r = self.r
+    ts = sym_targets(cur)
+    if not ts:
+      return None
+    t = r.weighted([(1 + 2 * len(x['vpath']) + (2 if x['under_obj'] else 0), x) for x in ts])
+    node, tup = t['node'], t['in_tuple']
+    W = lambda: self.wval(tup)
+    op = {'path': t['vpath'], 'quiet': int(r.chance(0.4)), 'warm': int(r.chance(0.5))}
+    skip = lambda: r.choice([None, None, 1, 1, 0])
+    if node[0] == 'o':
+      fields = [k for k, _ in node[2]]
+      if r.chance(0.3):
+        op.update(kind='setattr', a={'k': r.choice(fields), 'v': W()})
+      else:
+        ks = r.shuffle(fields)[:r.randint(1, min(2, len(fields)))]
+        op.update(kind='rebind', a={'kvs': [[k, W()] for k in ks]}, skip=skip())
+    elif node[0] == 'd':
+      old = [k for k, _ in node[2]]
+
+      def key(rebindable=False):
+        for _ in range(8):
+          k = r.choice(old) if old and r.chance(0.5) else self.key(False)
+          if rebindable and k[0] not in ('s', 'i'):
+            continue
+          if k in old or not any(atom_eq(k, k2) for k2 in old):
+            return k
+        return ['s', 'n%d' % len(old)]
+      kind = r.weighted([(4, 'set'), (2, 'setattr'), (2, 'del'), (1, 'pop'), (4, 'update'), (4, 'rebind'),
+                         (1, 'clear')])
+      if kind in ('del', 'pop') and not old:
+        kind = 'set'
+      if kind == 'set':
+        op.update(kind=kind, a={'k': key(), 'v': W()})
+      elif kind == 'setattr':
+        k = key()
+        op.update(kind=kind if k[0] == 's' and k[1].isidentifier() else 'set', a={'k': k, 'v': W()})
+      elif kind in ('del', 'pop'):
+        op.update(kind=kind, a={'k': r.choice(old)})
+      elif kind == 'clear':
+        op.update(kind=kind, a={})
+      else:
+        kvs = []
+        for _ in range(r.randint(1, 2)):
+          k = key(kind == 'rebind')
+          if not any(atom_eq(k, k2) for k2, _ in kvs):
+            kvs.append([k, W()])
+        op.update(kind=kind, a={'kvs': kvs})
+        if kind == 'rebind':
+          op['skip'] = skip()
+    else:
+      n = len(node[2])
+      sortable = n > 0 and (all(is_num(x) for x in node[2]) or all(x[0] == 's' for x in node[2]))
+      kind = r.weighted([(3, 'set'), (3, 'append'), (2, 'insert'), (2, 'extend'), (2, 'del'), (1, 'pop'),
+                         (3 if sortable else 0, 'sort'), (3, 'reverse'), (1, 'clear'), (3, 'rebind')])
+      if kind in ('set', 'del', 'pop', 'rebind') and n == 0:
+        kind = 'append'
+      if kind == 'set':
+        op.update(kind=kind, a={'k': ['i', r.below(n)], 'v': W()})
+      elif kind == 'rebind':
+        op.update(kind=kind, a={'kvs': [[['i', r.below(n)], W()]]}, skip=skip())
+      elif kind == 'append':
+        op.update(kind=kind, a={'v': W()})
+      elif kind == 'insert':
+        op.update(kind=kind, a={'k': ['i', r.below(n + 1)], 'v': W()})
+      elif kind == 'extend':
+        op.update(kind=kind, a={'vs': [W() for _ in range(r.randint(1, 2))]})
+      elif kind == 'del':
+        op.update(kind=kind, a={'k': ['i', r.below(n)]})
+      else:
+        op.update(kind=kind, a={})
+    # the same slot written through `rebind` on a symbolic ancestor (a deep key path)
+    if op['kind'] == 'rebind' and t['anc'] and r.chance(0.5):
+      cut = r.choice(t['anc'])
+      op.update(kind='deep_rebind', path=t['vpath'][:cut], rel=t['vpath'][cut:])
+    return op
+
+  def mut_case(self):
+    """A value with a history: `pre`, 1-3 writes, and partners related to the contents after (or
+    before) the writes. vals = [contents after the writes] * 3 + partners; the three leading values
+    are realised as: the written value, a fresh build of its contents, its deep clone."""
+    r = self.r
+    self.tuple_kind = r.choice(['num', 'num', 'str'])
+    score = lambda d: sum(2 if t['under_obj'] else 1 for t in sym_targets(d))
+    pre = max((normalize(self.val(r.randint(2, 3), False, top=True)) for _ in range(4)), key=score)
+    if not sym_targets(pre):
+      pre = normalize(['o', 0, [[['s', 'x'], ['l', 1, [self.num(), self.num()]]],
+                                [['s', 'y'], ['d', 1, [[['s', 'a'], self.atom(False)]]]]]])
+    cur, ops = pre, []
+    for _ in range(r.randint(1, 3)):
+      op = self.gen_op(cur)
+      if op is None:
+        break
+      nxt = apply_desc(cur, op)
+      if normalize(nxt) != nxt:
+        continue
+      ops.append(op)
+      cur = nxt
+    partners = [self.related(cur)[1] for _ in range(r.randint(1, 2))]
+    if r.chance(0.5):
+      partners[-1] = pre
+    fam = 'mutated+' + '+'.join(op['kind'] for op in ops)
+    return {'vals': [cur, cur, cur] + partners, 'fam': fam, 'mut': {'pre': pre, 'ops': ops}}
+
+
 def pool_values():
   """The 40-value pool of the exhaustive thorough run."""
   s = lambda x: ['s', x]
@@ -601,7 +938,15 @@ class C06(Prop):
           'subclasses with and without an extra field and one opt-out class; depth <= 3), then per further '
           'value one of: same value rebuilt, numeric alias, key order permuted, one leaf changed, element '
           'appended / dropped, subclass instance, symbolic/plain flip, fresh value; ~8 % malformed stream '
-          '(tuples with arbitrary elements); two classes with one __qualname__ in a dedicated stream. '
+          '(tuples with arbitrary elements); two classes with one __qualname__ in a dedicated stream; '
+          'a stream of values with a history: a value is built, eq / ne / lt / gt / hash / == / hash() are '
+          'evaluated on it against its partners, 1-3 writes are applied to its symbolic nodes (setitem, '
+          'setattr, del, pop, update, clear, append, insert, extend, sort, reverse, rebind on the node or '
+          'on an ancestor with a deep key path, with skip_notification unset / True / False, 40 % of the '
+          'writes under pg.notify_on_change(False), the laws re-evaluated between writes half of the '
+          'time), then the laws are evaluated on (written value, fresh build of its contents, deep '
+          'clone, 1-2 partners related to the contents after / before the writes); the model is '
+          'evaluated on the contents read back after the writes. '
           'Non-trivial: at least one value is a container or object and not all values are identical '
           'descriptions; distinct: by the list of value descriptions.')
   trusted_base = [
@@ -614,6 +959,9 @@ class C06(Prop):
       'NaN / inf, sets, functions / methods / classes as values (callable_eq), typed missing values of '
       'partial objects and inferred values are outside the model',
       'the hash term of the model is evaluated with the real hash() by the harness and compared with pg.hash',
+      'correspondence rule for values with a history: the (stateless) model is evaluated on the contents read '
+      'back from the written value through sym_items / sym_values / iteration; the read API itself and the '
+      'contents the write paths produce are not part of C06 (C01 / C02)',
   ]
   assumptions = ['distinct user classes have distinct __qualname__ (else pg.lt does not terminate: F39)',
                  'dict keys are atoms (no tuple keys); floats are finite']
@@ -626,6 +974,10 @@ class C06(Prop):
       yield g.case(2, malformed=rng.chance(0.08))
     for _ in range(n_triples):
       yield g.case(3, malformed=rng.chance(0.08))
+    # values with a history: written through notifying and non-notifying paths after eq / hash / lt
+    # were evaluated on them (module comment "Values with a history")
+    for _ in range(900 if tier == 'quick' else 40000):
+      yield g.mut_case()
     # dedicated stream: two classes with one qualname
     for _ in range(20 if tier == 'quick' else 200):
       x = normalize(['o', rng.choice(SAME_QUALNAME), [[['s', 'x'], g.atom(False)]]])
@@ -647,6 +999,29 @@ class C06(Prop):
   def model_request(self, case):
     return {'quals': QUALS, 'vals': case['vals']}
 
+  def effective(self, case, out):
+    """A case with a history, with the contents read back from the written value in the place of the
+    script's prediction: vals = [contents after the writes] * 3 + partners. The model and the oracle
+    are evaluated on these (correspondence rule: the laws are functions of the current contents)."""
+    if case.get('mut') and isinstance(out, dict) and 'post' in out:
+      case = dict(case)
+      case['vals'] = [out['post']] * 3 + case['vals'][3:]
+    return case
+
+  def model_request_with_impl(self, case, impl_out):
+    return self.model_request(self.effective(case, impl_out))
+
+  def warm(self, pg, x, partners):
+    """Everything the laws evaluate, on a value that is about to be written (may memoise)."""
+    _res(pg.hash, x)
+    _res(hash, x)
+    for p in partners:
+      for f in (pg.eq, pg.ne, pg.lt, pg.gt):
+        _res(f, x, p)
+        _res(f, p, x)
+      _res(lambda a, b: a == b, x, p)
+      _res(pg.hash, p)
+
   # -- implementation ---------------------------------------------------------------------
   def setup_impl(self):
     super().setup_impl()
@@ -655,8 +1030,27 @@ class C06(Prop):
   def impl(self, case):
     e = env()
     pg = e['pg']
-    vals = [build(d, e) for d in case['vals']]
-    copies = [build(d, e) for d in case['vals']]
+    mut = case.get('mut')
+    if mut:
+      import copy
+
+      def written():
+        x = build(mut['pre'], e)
+        ps = [build(d, e) for d in case['vals'][3:]]
+        self.warm(pg, x, ps)
+        for op in mut['ops']:
+          apply_op(e, x, op)
+          if op.get('warm'):
+            self.warm(pg, x, ps)
+        return x
+      clone = lambda v: v.clone(deep=True) if isinstance(v, pg.Symbolic) else copy.deepcopy(v)
+      xa, xb = written(), written()
+      post = describe_value(xa, e)
+      vals = [xa, build(post, e), clone(xa)] + [build(d, e) for d in case['vals'][3:]]
+      copies = [xb, build(post, e), clone(xb)] + [build(d, e) for d in case['vals'][3:]]
+    else:
+      vals = [build(d, e) for d in case['vals']]
+      copies = [build(d, e) for d in case['vals']]
     n = len(vals)
     mat = lambda f: [[_res(f, vals[i], copies[j]) for j in range(n)] for i in range(n)]
     out = {'model': {'eq': mat(pg.eq), 'ne': mat(pg.ne), 'lt': mat(pg.lt), 'gt': mat(pg.gt)}}
@@ -676,9 +1070,12 @@ class C06(Prop):
     for i, c in enumerate(e['classes']):
       ch[str(i)] = hash(c)
     out['cls_hash'] = ch
+    if mut:
+      out['post'] = post
     return out
 
   def compare(self, case, impl_out, model_out):
+    case = self.effective(case, impl_out)
     a = impl_out['model']
     b = {k: model_out.get(k) for k in ('eq', 'ne', 'lt', 'gt')}
     if a != b:
@@ -712,6 +1109,7 @@ class C06(Prop):
   def oracle(self, case, out):
     """All laws are evaluated; a failure that matches no known finding is reported in preference
     to one that does (so a known defect never masks a new one in the same case)."""
+    case = self.effective(case, out)
     fails = [f for f in (self.eq_hash_laws(case, out), ) if f]
     if case.get('check') in (None, 'order'):
       f = self.order_laws(case, out)
@@ -721,6 +1119,9 @@ class C06(Prop):
       f = self.hash_laws(case, out, skip_plain=True)
       if f:
         fails.append(f)
+    f = self.history_laws(case, out)
+    if f:
+      fails.append(f)
     if not fails:
       return None
     if C06._known is None:
@@ -808,6 +1209,34 @@ class C06(Prop):
           return fail('operator-ne-disagrees', '(v%d != v%d) = %s, pg.ne = %s' % (i, j, out['op_ne'][i][j], ne[i][j]))
     return None
 
+  def history_laws(self, case, out):
+    """A written value (0) behaves as the fresh build of its contents (1) and as its deep clone (2)
+    in every comparison, on either side, and hashes as they do."""
+    if not case.get('mut'):
+      return None
+    fail = lambda what, txt: {'signature': 'history-dependent:' + what, 'what': txt}
+    n = len(case['vals'])
+    ops = '; '.join('%s%s at %s' % (o['kind'], ' (notification off)' if o.get('quiet') else '',
+                                    json.dumps(o['path'])) for o in case['mut']['ops'])
+    mats = dict(out['model'])
+    mats['op_eq'], mats['op_ne'] = out['op_eq'], out['op_ne']
+    for name in ('eq', 'ne', 'lt', 'gt', 'op_eq', 'op_ne'):
+      M = mats[name]
+      for j, who in ((1, 'a fresh build of its contents'), (2, 'its deep clone')):
+        for k in range(n):
+          if M[0][k] != M[j][k]:
+            return fail(name, '%s(written value, v%d) = %s but %s(%s, v%d) = %s after: %s' % (
+                name, k, M[0][k], name, who, k, M[j][k], ops))
+          if M[k][0] != M[k][j]:
+            return fail(name, '%s(v%d, written value) = %s but %s(v%d, %s) = %s after: %s' % (
+                name, k, M[k][0], name, k, who, M[k][j], ops))
+    for name in ('hash', 'op_hash'):
+      h = out[name]
+      for j, who in ((1, 'a fresh build of its contents'), (2, 'its deep clone')):
+        if h[0] != h[j]:
+          return fail(name, '%s of the written value differs from that of %s after: %s' % (name, who, ops))
+    return None
+
   def order_laws(self, case, out):
     vals = case['vals']
     n = len(vals)
@@ -867,16 +1296,35 @@ class C06(Prop):
     return 'other'
 
   def nontrivial(self, case, out):
+    if case.get('mut'):
+      return bool(case['mut']['ops']) and isinstance(out, dict) and out.get('post') != case['mut']['pre']
     vals = case['vals']
     return any(not is_atom(v) for v in vals) and any(v != vals[0] for v in vals[1:])
 
   def describe(self, case, out):
     if not isinstance(out, dict) or 'model' not in out:
       return ['no-output(timeout)']
+    script_vals = case['vals']
+    case = self.effective(case, out)
     vals = case['vals']
     n = len(vals)
     m = out['model']
-    h = ['arity:%d' % n] + ['fam:' + f for f in case.get('fam', '?').replace('/', '+').split('+')]
+    h = ['arity:%d' % n] + ['fam:' + f for f in case.get('fam', '?').replace('/', '+').split('+')[:1]]
+    if case.get('mut'):
+      ops = case['mut']['ops']
+      h.append('writes:%d' % len(ops))
+      for o in ops:
+        how = o['kind'] + ('/skip=%s' % o['skip'] if 'skip' in o else '')
+        h.append('write:%s%s' % (how, '/notification-off' if o.get('quiet') else ''))
+        h.append('write-depth:%d' % len(o['path'] + o.get('rel', [])))
+      if any(o.get('quiet') or o.get('skip') or o['kind'] == 'update' for o in ops):
+        h.append('case-with-non-notifying-write')
+      if vals[0] != script_vals[0]:
+        h.append('contents-differ-from-script-prediction(the-read-back-contents-are-used)')
+      if vals[0] == case['mut']['pre']:
+        h.append('writes-without-effect')
+    else:
+      h += ['fam:' + f for f in case.get('fam', '?').replace('/', '+').split('+')[1:]]
     pairs = [(i, j) for i in range(n) for j in range(n) if i < j]
     n_eq = sum(1 for i, j in pairs if m['eq'][i][j] is True)
     h.append('pairs')
@@ -908,7 +1356,30 @@ class C06(Prop):
       return 1 + max([self.depth(v) for _, v in d[2]] + [0])
     return 0
 
+  def mk_mut(self, pre, ops, partners, fam):
+    """A case with a history from its parts (None if the script does not apply to `pre`)."""
+    try:
+      cur = pre
+      for op in ops:
+        cur = normalize(apply_desc(cur, op))
+    except (KeyError, IndexError, ValueError, TypeError):
+      return None
+    return {'vals': [cur, cur, cur] + partners, 'fam': fam, 'mut': {'pre': pre, 'ops': ops}}
+
   def shrink_candidates(self, case):
+    if case.get('mut'):
+      pre, ops, partners = case['mut']['pre'], case['mut']['ops'], case['vals'][3:]
+      cands = [(pre, ops[:i] + ops[i + 1:], partners) for i in range(len(ops))]
+      cands += [(pre, ops, partners[:i] + partners[i + 1:]) for i in range(len(partners))]
+      cands += [(pre, [dict(o, warm=0) for o in ops], partners)] if any(o.get('warm') for o in ops) else []
+      cands += [(normalize(w), ops, partners) for w in self.smaller(pre)]
+      for i, v in enumerate(partners):
+        cands += [(pre, ops, partners[:i] + [normalize(w)] + partners[i + 1:]) for w in self.smaller(v)]
+      for c in cands:
+        c = self.mk_mut(c[0], c[1], c[2], 'shrunk')
+        if c is not None and c != case:
+          yield c
+      return
     vals = case['vals']
     if len(vals) > 2:
       for i in range(len(vals)):
